@@ -27,7 +27,8 @@ CFG = dict(
           "min/max u8/i8/u16/i16/float/double; unary: is_power_of_two, round_up_to_power_of_two, clz/ctz x5 widths; "
           "convunit: aws_timestamp_convert; convu64: aws_timestamp_convert_u64 with frequencies 1..10^9). Every tuple is "
           "evaluated by 4 implementations (build-selected, gcc overflow builtins, x86-64 inline asm, portable fallback) "
-          "x 2 compilation contexts (thin wrapper, all helpers inlined into one loop) and compared with unsigned __int128 / "
+          "x 3 compilation contexts (thin wrapper; all helpers inlined into one loop; add/mul helpers and convert_u64 inlined "
+          "between register barriers holding 13 by-stander values that must come back unchanged) and compared with unsigned __int128 / "
           "bit-loop references, including return code and aws_last_error(). One stage per optimisation level "
           "(-O0/-O2/-O3) = 12 variant x level instances. Cases [0,123) of each stage are the seed-independent EXHAUSTIVE "
           "sweep: all |B64|^2=126736 and |B32|^2=45796 boundary pairs, all 65536 8-bit pairs, 2906 unary boundary "
@@ -73,7 +74,7 @@ META = dict(
                 "run on ALL pairs of a ~350-element boundary set per width (powers of two +-1, MAX-k, floor(MAX/b)+-1, "
                 "sqrt(MAX) neighbours) plus tens of millions (quick) to billions (thorough) of stratified and "
                 "boundary-aimed random tuples, for four implementations compiled side by side (the build's choice, "
-                "overflow builtins, x86-64 inline assembly, portable C), each in two inlining contexts and at -O0, -O2 "
+                "overflow builtins, x86-64 inline assembly, portable C), each in three inlining contexts (one under full register pressure) and at -O0, -O2 "
                 "and -O3, and compared value, return code and error code against unsigned __int128 references. "
                 "Exploration is the right level: the property quantifies over all operand pairs; the oracle is exact per call."),
     design_ref="DESIGN.md section 5, C16",
